@@ -243,6 +243,10 @@ pub struct Gc {
     collect_limit: usize,
     /// The maximum number of bytes this garbage collector may contain
     memory_limit: usize,
+    /// Verification hook: unique id of this heap
+    #[cfg(feature = "verif")]
+    #[cfg_attr(feature = "serde_derive", serde(skip))]
+    owner_id: u64,
     #[cfg_attr(feature = "serde_derive", serde(skip))]
     type_infos: FnvMap<TypeId, Box<TypeInfo>>,
     #[cfg_attr(feature = "serde_derive", serde(skip))]
@@ -356,6 +360,13 @@ struct GcHeader {
     marked: Cell<bool>,
     value_size: usize,
     type_info: *const TypeInfo,
+    /// Verification hook: id of the `Gc` which allocated this object
+    #[cfg(feature = "verif")]
+    owner: u64,
+    /// Verification hook: set when the object has been swept (only observable when swept
+    /// blocks are quarantined instead of returned to the allocator)
+    #[cfg(feature = "verif")]
+    freed: Cell<bool>,
 }
 
 struct AllocPtr {
@@ -377,6 +388,10 @@ impl AllocPtr {
                         type_info: type_info,
                         value_size: value_size,
                         marked: Cell::new(false),
+                        #[cfg(feature = "verif")]
+                        owner: 0,
+                        #[cfg(feature = "verif")]
+                        freed: Cell::new(false),
                     },
                 );
                 AllocPtr { ptr }
@@ -413,6 +428,7 @@ impl Drop for AllocPtr {
                 if crate::verif::QUARANTINE.load(std::sync::atomic::Ordering::Relaxed) {
                     // Poison the value bytes and leak the block so that a dangling pointer reads
                     // a recognisable pattern instead of recycled memory
+                    self.freed.set(true);
                     ptr::write_bytes(
                         self.value() as *mut u8,
                         crate::verif::POISON,
@@ -1083,6 +1099,8 @@ impl Gc {
             allocated_memory: 0,
             collect_limit: 100,
             memory_limit: memory_limit,
+            #[cfg(feature = "verif")]
+            owner_id: crate::verif::next_owner_id(),
             type_infos: FnvMap::default(),
             record_infos: FnvMap::default(),
             tag_infos: FnvMap::default(),
@@ -1092,6 +1110,12 @@ impl Gc {
 
     pub fn allocated_memory(&self) -> usize {
         self.allocated_memory
+    }
+
+    /// Verification hook: the unique id of this heap
+    #[cfg(feature = "verif")]
+    pub fn verif_owner_id(&self) -> u64 {
+        self.owner_id
     }
 
     pub fn set_memory_limit(&mut self, memory_limit: usize) {
@@ -1258,6 +1282,10 @@ impl Gc {
         );
 
         let mut ptr = AllocPtr::new::<D::Value>(type_info, size);
+        #[cfg(feature = "verif")]
+        {
+            ptr.owner = self.owner_id;
+        }
         ptr.next = self.values.take();
         self.allocated_memory += ptr.size();
         #[cfg(feature = "verif")]
@@ -1318,6 +1346,17 @@ impl Gc {
     /// Returns true if the pointer was already marked
     pub fn mark<T: ?Sized>(&mut self, value: &GcPtr<T>) -> bool {
         let header = value.header();
+        #[cfg(feature = "verif")]
+        {
+            // In visitor mode nothing is marked: every traced pointer is reported instead
+            if let Some(seen) = crate::verif::visit(
+                header as *const GcHeader as usize,
+                header.owner,
+                header.freed.get(),
+            ) {
+                return seen;
+            }
+        }
         // We only need to mark and trace values from this garbage collectors generation
         if header.generation().is_parent_of(self.generation()) || header.marked.get() {
             true
